@@ -130,3 +130,38 @@ Section Unique.
     end.
   Definition vsorted_unique (xs : list (option A)) : list A := uniq_go None xs.
 End Unique.
+
+(* ------------------------------------------------------------------ *)
+(* The entry point as the code receives its arguments (added by the C14 audit; definitions only; nothing above is
+   changed).  The edge vector is a Vec1View<T>, so its elements may be null.  After the label-count guard (`tbail!`, which
+   looks at the lengths only) the code collects `bins.titer().map(IsNone::unwrap)`: for Option<_> edges a None panics
+   (`Option::unwrap()` on a `None` value) AT CALL TIME, before any item is produced; for float edges `unwrap` is the
+   identity and a NaN edge simply stays in the vector (use `vcut` with the NaN among the edges).
+   `collect_items nullable`: the label type T2 has a null or not; without one `T2::none()` panics ("Cannot call none()
+   on a non-float type") when the first null VALUE is reached, i.e. the iteration unwinds.                          *)
+Definition item_is_null {L} (it : item L) : bool := match it with NullLab => true | _ => false end.
+
+Section CutCall.
+  Context {A L : Type}.
+  Variables ltb leb : A -> A -> bool.
+  Variables tmin tmax : A.
+
+  Fixpoint unwrap_all (es : list (option A)) : option (list A) :=
+    match es with
+    | [] => Some []
+    | Some e :: r => match unwrap_all r with Some l => Some (e :: l) | None => None end
+    | None :: _ => None
+    end.
+
+  Definition vcut_call (right add_bounds : bool) (edges : list (option A)) (labels : list L) (xs : list (option A))
+    : res (option (list (item L))) :=
+    if count_ok add_bounds edges labels then
+      match unwrap_all edges with
+      | Some es => Ok (Some (map (cut1 ltb leb tmin tmax right add_bounds es labels) xs))
+      | None => Panic UnwrapNone
+      end
+    else Ok None.
+
+  Definition collect_items (nullable : bool) (its : list (item L)) : res (list (item L)) :=
+    if negb nullable && existsb item_is_null its then Panic OtherPanic else Ok its.
+End CutCall.
